@@ -52,7 +52,17 @@ pub fn vacuum_in_place(
     let stats = pager.write_vacuum_copy(&tmp_path, &reachable)?;
     drop(pager);
 
+    #[cfg(luqing_studio_nervusdb_verif)]
+    {
+        use nervusdb_api::verif_hooks as vh;
+        vh::io(vh::IoKind::Rename, ndb_path, Some(&backup_path), 0, &[]).map_err(Error::Io)?;
+    }
     std::fs::rename(ndb_path, &backup_path).map_err(Error::Io)?;
+    #[cfg(luqing_studio_nervusdb_verif)]
+    {
+        use nervusdb_api::verif_hooks as vh;
+        vh::io(vh::IoKind::Rename, &tmp_path, Some(ndb_path), 0, &[]).map_err(Error::Io)?;
+    }
     if let Err(e) = std::fs::rename(&tmp_path, ndb_path) {
         let _ = std::fs::rename(&backup_path, ndb_path);
         let _ = std::fs::remove_file(&tmp_path);
